@@ -135,3 +135,7 @@ def run(ctx):
     ctx.assumptions += ["commands and purges reach a data server exactly once (acknowledged layer, C06); the controller respects C04 "
                         "(command sequences are issued only when Ready)", "at most two identical frames in flight (state constraint)",
                         "thread-pool capacity (2) is not modelled; futures complete in any order"]
+    # the data server's two pool threads share one process: the real shm client used from several threads at once
+    from ..drive.shm_clients import run_tier
+    run_tier(ctx, "C07")
+
